@@ -276,7 +276,7 @@ class Sites:
                 if not f["init"]:
                     self.out.append((path, "init-false"))
                 fv = getattr(v, f["name"])
-                if cfg.get("omit_none") and fv is None:
+                if cfg.get("omit_none") and fv is None and nullable_spec(G.subst(f["type"], e2)):
                     # the key is dropped; for a field without default the schema still requires it (known finding)
                     if f["default"] is None and f["init"]:
                         self.out.append((path, "omit-none-required"))
@@ -324,6 +324,18 @@ class Sites:
         for j in range(nafter):
             i = len(v) - nafter + j
             self.walk(args[u + 1 + j], v[i], path + (off + i,))
+
+
+def nullable_spec(t) -> bool:
+    """the serializer's notion of a nullable field type (only those get the `is not None` test under
+    omit_none): Any, None, Optional / Union with a direct None member -- not Literal[None]"""
+    while t[0] == "newtype":
+        t = t[1]
+    if t[0] in ("any", "none", "opt"):
+        return True
+    if t[0] == "union":
+        return any(m[0] in ("none", "any", "opt") or (m[0] == "union" and nullable_spec(m)) for m in t[1])
+    return False
 
 
 VALIDATOR_OF = {"flag": {"enum", "const"}, "set-collision": {"uniqueItems"}, "tz": {"pattern"},
